@@ -84,11 +84,25 @@ def check(chk: Check) -> None:
         chk.require(ok, R1, desc, '%s:%d' % (fi.module.rel, e.line),
                     'key is %s' % ('the source parameter itself' if ok else '`%s`, not the text that was parsed' % show(key)))
     # uses of parse_cache elsewhere
+    # ... except in helpers that run as part of parse (their statements are events of parse's paths) and in tests of
+    # the cache object against None, which read nothing from it
+    in_parse = set()
+    for p in paths:
+        for e in p.events:
+            if e.node is not None:
+                in_parse.update(ast.walk(e.node))
     for m in F.modules.values():
         if '.ply' in m.name:
             continue
+        none_tests = set()
+        for n in ast.walk(m.tree):
+            if isinstance(n, ast.Compare) and len(n.ops) == 1 and isinstance(n.ops[0], (ast.Is, ast.IsNot)) and \
+                    isinstance(n.comparators[0], ast.Constant) and n.comparators[0].value is None:
+                none_tests.add(n.left)
         for n in ast.walk(m.tree):
             if isinstance(n, ast.Attribute) and n.attr == 'parse_cache':
+                if n in in_parse or n in none_tests:
+                    continue
                 encl = _encl(F, m, n)
                 if encl not in (q, PARSER + '.__init__'):
                     chk.bad(R1, 'parse_cache used in %s' % encl, '%s:%d' % (m.rel, n.lineno),
